@@ -13,8 +13,16 @@ def main():
     ap.add_argument("--seed", type=int, default=int(os.environ.get("VERIF_SEED", "20260927")))
     ap.add_argument("--replay", default=None)
     a = ap.parse_args()
-    mod = importlib.import_module(f"harness.props.{a.pid.lower()}")
-    rc = core.check_property(mod, a.tier, a.seed, a.replay)
+    try:
+        mod = importlib.import_module(f"harness.props.{a.pid.lower()}")
+        rc = core.check_property(mod, a.tier, a.seed, a.replay)
+    except SystemExit:
+        raise
+    except BaseException:  # noqa: the interface wants a VIOLATION line, not a traceback, when the harness cannot run
+        import traceback
+        txt = traceback.format_exc()
+        sys.stderr.write(txt)
+        rc = core.crash_report(a.pid.upper(), a.tier, a.seed, txt)
     sys.exit(rc)
 
 
